@@ -216,38 +216,23 @@ def run(chk, repo, tier):
             st['wave'][0] == S('wave') and smp[0].bound.get('wave') == S('wave') and \
             smp[0].bound.get('waveunit') == S('waveunit') and st['waveunit'][0] == S('waveunit')
     chk.ob('C15-b', 'D-pairing', f.key, 'values sampled at exactly the new grid, in the new unit', okb, '', f.loc())
+    # ... from the spectrum as it was: sample() converts the stored grid from the unit the spectrum is labelled with, so the
+    # grid, the values and the label may only be replaced after the samples were taken
+    early, n_ord = [], 0
+    for p in [x for x in pp if x.status != 'raise']:
+        evs = p.events
+        smp_i = [i for i, e in enumerate(evs) if e.kind == 'call' and e.data.get('callee') == f'{SPEC}.sample' and e.depth == 0]
+        if not smp_i:
+            continue
+        n_ord += 1
+        for i, e in enumerate(evs):
+            if e.kind == 'write' and e.data.get('how') == 'attrstore' and e.depth == 0 and \
+                    e.data.get('attr') in ('wave', '_wave', 'value', '_value', 'waveunit', '_waveunit') and i < smp_i[0]:
+                early.append(f'{e.data.get("attr")} is replaced at {e.loc()} before the samples are taken')
+    chk.ob('C15-b', 'D-order', f.key, 'the samples are taken before the grid, the values or the unit label are replaced',
+           (not early) if n_ord else None, '; '.join(sorted(set(early))[:2]) or f'{n_ord} path(s)', f.loc())
 
-    # integrate
-    fi = cls.find_method('integrate')
-    _, pi_, _ = analyse(repo, fi, config={'start': S('start'), 'end': S('end')})
-    sel = set()
-    for p in returns(pi_):
-        if any(pol and fmt(c) in ('is(start, (None))', 'is(end, (None))') for c, pol, _ in p.conds):
-            continue
-        for a in nf.value_atoms(p.ret):
-            if is_app(a, ('lt', 'le')):
-                sel.add(a)
-    lo = any(a[1] == 'le' and a[2][0] == S('start') and _is_self_array(a[2][1], 'wave') for a in sel)
-    hi = any(a[1] == 'le' and _is_self_array(a[2][0], 'wave') and a[2][1] == S('end') for a in sel)
-    # ... and by nothing else: every sample with start <= w <= end and no other one (a tolerance test or-ed to a bound lets
-    # samples outside the band in; in metres the default absolute tolerance of isclose is 10 nm)
-    extra = set()
-    COMBINE = ('le', 'lt', 'bitand', 'and', 'logical_and', 'nonzero', 'flatnonzero', 'intersect1d', 'm:nonzero', 'asarray')
-    for p in returns(pi_):
-        if any(pol and fmt(c) in ('is(start, (None))', 'is(end, (None))') for c, pol, _ in p.conds):
-            continue
-        for a in nf.value_atoms(p.ret):
-            if a[0] == 'idx' and _is_self_array(Poly.atom(a[1]), 'wave'):
-                for k in nf.value_atoms(a[2]):
-                    if k[0] == 'app' and not is_app(k, COMBINE) and any(_is_self_array(Poly.atom(x), 'wave') for x in nf.value_atoms(Poly.atom(k)) if x != k):
-                        extra.add(k)
-    widen = [k for k in extra if is_app(k, ('isclose', 'bitor', 'or', 'logical_or', 'bitxor', 'invert', 'not', 'logical_not'))]
-    verdict = (lo and hi and len(sel) == 2) if sel else None       # no comparison at all: selected some other way
-    if verdict and extra:
-        verdict = False if widen else None
-    chk.ob('C15-d', 'T-comparison', fi.key, 'selects start <= w <= end (closed on both sides)', verdict,
-           '; '.join(sorted(nf.fmt_atom(a) for a in sel)) +
-           ('; the selection also depends on ' + ', '.join(sorted(nf.fmt_atom(a)[:70] for a in extra)[:2]) if extra else ''), fi.loc())
+    integrate_selection_rule(chk, repo, 'C15-d')
 
     # pad: every appended wavelength gets exactly one appended value
     fpad = cls.find_method('pad')
@@ -438,6 +423,43 @@ def _selection_of_self(v, name):
     while isinstance(v, Poly) and v.single_atom() is not None and is_app(v.single_atom(), 'delete'):
         v = v.single_atom()[2][0]
     return _is_self_array(v, name)
+
+
+def integrate_selection_rule(chk, repo, clause):
+    """Spectrum.integrate selects exactly the samples with start <= w <= end (C15-d; reused by C14: the integral of a band is
+    what a unit conversion must preserve)"""
+    cls = repo.cls(SPEC)
+    fi = cls.find_method('integrate')
+    _, pi_, _ = analyse(repo, fi, config={'start': S('start'), 'end': S('end')})
+    sel = set()
+    for p in returns(pi_):
+        if any(pol and fmt(c) in ('is(start, (None))', 'is(end, (None))') for c, pol, _ in p.conds):
+            continue
+        for a in nf.value_atoms(p.ret):
+            if is_app(a, ('lt', 'le')):
+                sel.add(a)
+    lo = any(a[1] == 'le' and a[2][0] == S('start') and _is_self_array(a[2][1], 'wave') for a in sel)
+    hi = any(a[1] == 'le' and _is_self_array(a[2][0], 'wave') and a[2][1] == S('end') for a in sel)
+    # ... and by nothing else: every sample with start <= w <= end and no other one (a tolerance test or-ed to a bound lets
+    # samples outside the band in; in metres the default absolute tolerance of isclose is 10 nm)
+    extra = set()
+    COMBINE = ('le', 'lt', 'bitand', 'and', 'logical_and', 'nonzero', 'flatnonzero', 'intersect1d', 'm:nonzero', 'asarray')
+    for p in returns(pi_):
+        if any(pol and fmt(c) in ('is(start, (None))', 'is(end, (None))') for c, pol, _ in p.conds):
+            continue
+        for a in nf.value_atoms(p.ret):
+            if a[0] == 'idx' and _is_self_array(Poly.atom(a[1]), 'wave'):
+                for k in nf.value_atoms(a[2]):
+                    if k[0] == 'app' and not is_app(k, COMBINE) and any(_is_self_array(Poly.atom(x), 'wave') for x in nf.value_atoms(Poly.atom(k)) if x != k):
+                        extra.add(k)
+    widen = [k for k in extra if is_app(k, ('isclose', 'bitor', 'or', 'logical_or', 'bitxor', 'invert', 'not', 'logical_not'))]
+    verdict = (lo and hi and len(sel) == 2) if sel else None       # no comparison at all: selected some other way
+    if verdict and extra:
+        verdict = False if widen else None
+    chk.ob(clause, 'T-comparison', fi.key, 'selects start <= w <= end (closed on both sides)', verdict,
+           '; '.join(sorted(nf.fmt_atom(a) for a in sel)) +
+           ('; the selection also depends on ' + ', '.join(sorted(nf.fmt_atom(a)[:70] for a in extra)[:2]) if extra else ''), fi.loc())
+
 
 
 def _is_self_array(v, name):
